@@ -1,6 +1,6 @@
 //! C08: the real retry budgets with hooked atomics under the baton scheduler.
 //! ops: `manual thread t=<i> prog=<W|D…>` … then `manual sched s=<tid,tid,…>` runs the schedule.
-use crate::sched::run_scheduled;
+use crate::sched::run_scheduled_opt;
 use crate::world::*;
 use std::sync::Arc;
 use tower_resilience_retry::{AimdBudget, RetryBudget, TokenBucketBudget};
@@ -73,7 +73,7 @@ impl Mw for Adapter {
                         out
                     }));
                 }
-                let (trace, outs) = run_scheduled(bodies, &schedule);
+                let (trace, outs) = run_scheduled_opt(bodies, &schedule, self.kv.u64("inner", 0) == 1);
                 for l in trace {
                     log(l);
                 }
